@@ -118,6 +118,28 @@ func genC06() {
 			return true
 		})
 	}
+	// where find calls url.QueryUnescape: inside the search loop ("loop") or behind it ("epilogue"), in source order
+	var unescSites []string
+	for _, d := range f.Decls {
+		fd, ok := d.(*ast.FuncDecl)
+		if !ok || fd.Name.Name != "find" || fd.Body == nil {
+			continue
+		}
+		for _, st := range fd.Body.List {
+			where := "epilogue"
+			if _, ok := st.(*ast.ForStmt); ok {
+				where = "loop"
+			}
+			ast.Inspect(st, func(n ast.Node) bool {
+				if ce, ok := n.(*ast.CallExpr); ok {
+					if se, ok := ce.Fun.(*ast.SelectorExpr); ok && se.Sel.Name == "QueryUnescape" {
+						unescSites = append(unescSites, where)
+					}
+				}
+				return true
+			})
+		}
+	}
 	if len(labelsF) == 0 || len(btArgs) == 0 {
 		die("tree.go: labels / backtrack calls of find not found")
 	}
@@ -126,6 +148,7 @@ func genC06() {
 	fmt.Fprintf(&b, "/-- labels of `(*router).find`, in source order -/\ndef findLabels : List String := [%s]\n\n", quoteJoin(labelsF))
 	fmt.Fprintf(&b, "/-- `goto` targets of `find`, in source order -/\ndef findGotos : List String := [%s]\n\n", quoteJoin(gotos))
 	fmt.Fprintf(&b, "/-- arguments of the `backtrackToNextNodeKind` calls, in source order -/\ndef findBacktrackArgs : List String := [%s]\n\n", quoteJoin(btArgs))
+	fmt.Fprintf(&b, "/-- where `find` calls `url.QueryUnescape` (search loop / epilogue), in source order -/\ndef findUnescapeSites : List String := [%s]\n\n", quoteJoin(unescSites))
 	fmt.Fprintf(&b, "/-- variables decremented in `find` (the restores of the closure), in source order -/\ndef backtrackRestores : List String := [%s]\n\n", quoteJoin(restores))
 	fmt.Fprintf(&b, "/-- the `kind` iota block of `pkg/route/tree.go`, in order -/\ndef kinds : List String := [%s]\n\n", quoteJoin(kinds))
 	fmt.Fprintf(&b, "/-- `paramLabel` -/\ndef paramLabel : UInt8 := %d\n\n/-- `anyLabel` -/\ndef anyLabel : UInt8 := %d\n\n", labels["paramLabel"], labels["anyLabel"])
